@@ -134,7 +134,7 @@ StripHostPort(h) ==
 Lookup(T, hostport, p) ==
   IF HostIds(T) = {} THEN PathStage(T, p)
   ELSE LET h == StripHostPort(hostport)
-           r == IF h = <<>> THEN NotFound ELSE HostStage(T, h, p)
+           r == IF h = <<>> \/ HasChar(h, "/") THEN NotFound ELSE HostStage(T, h, p)   \* a Host with a slash is no hostname
        IN IF r.ok THEN r ELSE PathStage(T, p)
 
 --------------------------------------------------------------------------
@@ -177,7 +177,7 @@ LookupIds(T, ids, hostport, p) ==
   IN IF HostIds(T) = {} THEN pstage
      ELSE LET h == StripHostPort(hostport)
               hwalk(js, q) == IF js = {} THEN NoMatch ELSE HostDfs(Cands(T, js), h, q, <<>>)
-              r == IF h = <<>> THEN NotFound ELSE Stage(T, hids, p, hwalk)
+              r == IF h = <<>> \/ HasChar(h, "/") THEN NotFound ELSE Stage(T, hids, p, hwalk)
           IN IF r.ok THEN r ELSE pstage
 
 IrrelevantR(T, r, hostport, p) ==
